@@ -69,7 +69,7 @@ Proof.
   assert (Hkeep : forall s', In s' (el_secs el') -> exists s, In s (el_secs el) /\ sh_type s' = sh_type s /\ sh_size s' = sh_size s /\ s_index s' = s_index s).
   { clear - K. induction K as [|s s' t t' Hk HK IH]; intros x Hx; [contradiction|].
     destruct Hx as [<-|Hx].
-    - exists s. split; [now left|]. destruct Hk as [->| ->]; repeat split.
+    - exists s. split; [now left|]. destruct Hk as [->|[_ ->]]; repeat split.
     - destruct (IH x Hx) as (y & Hy & R). exists y. split; [now right|exact R]. }
   apply validate_clean.
   - rewrite Hlen. exact Hn.
